@@ -16,6 +16,20 @@ B. Lattice tilings: a polyomino (with/without enclosed voids, optionally with di
    nesting over all returned loops) is exactly the union of the cells: decided at every cell
    centre of the bounding grid (+1 ring) with exact integer arithmetic on the returned
    coordinates, after checking that every returned edge runs along a lattice line (within tol).
+   Besides rectangles: tilings by polyomino tiles (streams comb / ring / polypart):
+   - T-junction runs: a comb (U / E / 2..4 teeth, optionally stair-shaped back) or a thin branchy
+     polyomino puts three or more of its vertices on ONE edge of a long straight wall tile
+     (enclosed 1x1.. voids or filler tiles of different sizes between the teeth, rectangles of
+     different sizes or a second comb stacked on the other long edge); the tile that carries the
+     run is presented in every cyclic start and both orientations (small tiles; a sample that
+     contains starts in the middle of the run otherwise), so the insertion pre-pass receives the
+     new vertices of one segment in a non-monotone order;
+   - tiles that themselves have holes (boundary + holes): the hole stays void / is filled by one
+     tile / by several rectangles / partly / holds an island / is filled by a second ring tile;
+     the ring optionally cut into C-shaped simple tiles.  join_coplanar_faces gets Face3Ds with
+     holes; joined_intersected_boundary (simple polygons only) gets boundary and holes as
+     separate polygons -- the way join_coplanar_faces itself calls it -- and the C-shaped cut.
+     The expected union subtracts the holes of the input tiles.
 """
 import math
 import random
@@ -38,9 +52,13 @@ ASSUMPTIONS = [
     'the tolerance" is an equivalence relation on the end points (certified exactly per case)',
     'a returned vertex may be any point within tol (per coordinate) of exactly one vertex class; '
     'total length is compared within 1e-9 (no jitter) or segments*tol (jitter)',
-    'tilings: unit cells >= 0.5 >> tol; tiles are rectangles without collinear vertices (as '
+    'tilings: unit cells >= 0.5 >> tol; tiles are rectangles or polyominoes (connected, no '
+    'diagonal contacts, corner vertices only) without collinear vertices (as '
     'joined_intersected_boundary documents); join_coplanar_faces tiles may carry extra lattice '
-    'vertices on their edges; enclosed region = even-odd nesting over all returned loops '
+    'vertices on their edges and may have holes (Face3D boundary + holes); the region of a tile '
+    'with holes is its boundary minus its holes; joined_intersected_boundary receives such a tile '
+    'as separate polygons (boundary, holes), which is how join_coplanar_faces hands it over; '
+    'enclosed region = even-odd nesting over all returned loops '
     '(Polygon2D list); for Face3D results of a connected polyomino: inside the boundary and '
     'outside the holes of some returned face (also for unions with two components: side by side, '
     'or an island inside a void); unions with diagonal contacts (outside the quantifier) are only '
@@ -939,6 +957,8 @@ def gen_ring(rng):
         w, h = max(xs) - min(xs) + 1, max(ys) - min(ys) + 1
         mode = rng.choice(['void', 'void', 'void', 'fill', 'fillcut', 'partial', 'partial',
                            'island', 'nested'])
+        if w >= 3 and h >= 3 and rng.random() < 0.5:
+            mode = rng.choice(['island', 'nested', 'nested'])
         if mode in ('island', 'nested') and (w < 3 or h < 3):
             mode = rng.choice(['void', 'fill', 'partial'])
         if mode == 'partial' and len(comp) < 2:
@@ -1322,13 +1342,15 @@ PROBE_COMBS = [
     [blk(0, -1, 2, 5), blk(3, 0, 4, 4) | {(2, 0), (2, 3)}, {(2, 1)}],
 ]
 # tiles that have holes: hole stays void (+ a neighbour outside) / filled by one tile / partly
-# filled / filled by a second ring whose hole stays void / two holes, one filled
+# filled / filled by a second ring whose hole stays void / two holes, one filled / a small tile
+# inside the hole in the middle of one hole edge (T-junctions on the edge of a hole)
 PROBE_RINGS = [
     [blk(0, 0, 3, 3) - {(1, 1)}, blk(3, 0, 4, 2)],
     [blk(0, 0, 3, 3) - {(1, 1)}, {(1, 1)}],
     [blk(0, 0, 4, 4) - blk(1, 1, 3, 3), blk(1, 1, 3, 2)],
     [blk(0, 0, 5, 5) - blk(1, 1, 4, 4), blk(1, 1, 4, 4) - {(2, 2)}],
     [blk(0, 0, 5, 3) - {(1, 1), (3, 1)}, {(3, 1)}, blk(5, 1, 6, 3)],
+    [blk(0, 0, 5, 5) - blk(1, 1, 4, 4), {(2, 1)}],
 ]
 PROBE_PLANES = [((0.0, 0.0, 1.0), (0.0, 0.0, 0.0)), ((1.0, 0.0, 0.0), (2.0, -1.0, 0.5)),
                 ((2 / 7.0, -3 / 7.0, 6 / 7.0), (-3.25, 4.0, 1.5))]
@@ -1460,7 +1482,7 @@ def run(ctx):
         cells = sorted(cells_of(base))
         for k in range(6 if thorough else 3):
             lps = [present(prng, t) for t in base]
-            prng.shuffle(lps)
+            lps = lps[k % len(lps):] + lps[:k % len(lps)]       # every tile first / last
             fr = Frame(3.0 if pi % 2 else 0.5, 1.25, -2.0, 0.0 if k % 2 == 0 else 0.7 * k + pi)
             fl = lps if k % 3 else [densify_tile(prng, t) for t in lps]
             for site, plane, q in ((S2D, None, lps), (S3D, PROBE_PLANES[k % 3], fl)):
@@ -1556,13 +1578,13 @@ def run(ctx):
                 nb = len(tile_parts(tiles[ci])[0])
                 allp = [(rev, k) for rev in (False, True) for k in range(nb)]
                 u = rng.random()
-                if (thorough and (nb <= 12 or (nb <= 28 and u < 0.3))) or \
+                if (thorough and u < (0.5 if nb <= 12 else 0.12 if nb <= 28 else 0.0)) or \
                         (not thorough and u < (0.5 if nb <= 8 else 0.12 if nb <= 12 else 0.0)):
                     pres = allp
                     hist['poly_cases_all_cyclic_starts_both_orientations'] += 1
                 else:
                     mid = mid_run_starts(tiles, ci)
-                    ns = 6 if thorough else 2
+                    ns = 4 if thorough else 2
                     pres = rng.sample(mid, min(len(mid), ns - ns // 2)) if mid else []
                     pres += rng.sample(allp, ns - len(pres))
             elif kind == 'ring' and rng.random() < 0.5:
@@ -1665,7 +1687,11 @@ def run(ctx):
                     'lattice tilings (solid/void/pinch/two components/island, cut into rectangles, '
                     'random tile orientation and start, dyadic or rotated frame, planes '
                     'horizontal/vertical/tilted) -- non-trivial = at least one T-junction or '
-                    'enclosed void',
+                    'enclosed void; tilings by polyomino tiles (comb against a long wall tile / '
+                    'tiles with holes / branchy polyomino partition; the run-carrying tile in all '
+                    'cyclic starts and both orientations or a sample with mid-run starts) -- '
+                    'non-trivial = >= 3 vertices of one tile on one edge of another, a tile with '
+                    'holes, or an enclosed void',
             'samples': samples, 'failures': sorted(failures.values(), key=lambda f: f['signature']),
             'extra': {'histograms': hist}}
 
